@@ -142,7 +142,15 @@ func execCase(c core.Case) []string {
 				out = append(out, "bad-op")
 				break
 			}
-			mid := a["mid"] == "1"
+			mid := 0
+			if s, has := a["mid"]; has {
+				v, okm := natTok(s)
+				if !okm || v > 9 {
+					out = append(out, "bad-op")
+					break
+				}
+				mid = v
+			}
 			if f[0] == "start" {
 				l := getP().start(k, mid)
 				if ff := strings.Fields(l); len(ff) > 3 {
@@ -561,6 +569,9 @@ func oracle(c core.Case, out []string) []core.Finding {
 			}
 		case "spawncheck", "spawncommit", "rel":
 			g := kv("x " + o)["gate"]
+			if strings.HasSuffix(o, " flush-outside-lock") {
+				add("mempool."+mpver+".flush-outside-lock", "BlockExecutor.Commit called mempool.FlushAppConn without holding the mempool lock: "+o)
+			}
 			if strings.HasPrefix(o, "TIMEOUT") {
 				add("harness.mempool-not-quiescent", o)
 			}
@@ -697,9 +708,11 @@ func crashTok(r *rand.Rand, max int) string {
 	return "crash=" + strconv.Itoa(r.Intn(max+1))
 }
 
+// mid=j: the crash falls inside the next state-store effect, after j of its database writes (at the
+// latest before its last one)
 func midTok(r *rand.Rand) string {
 	if r.Intn(3) == 0 {
-		return " mid=1"
+		return fmt.Sprintf(" mid=%d", 1+r.Intn(3))
 	}
 	return ""
 }
@@ -733,10 +746,10 @@ func gen(r *rand.Rand, tier string, emit func(core.Case)) {
 	if tier == "thorough" {
 		for k := 0; k <= 11; k++ {
 			for j := -1; j <= 9; j++ {
-				for mid := 0; mid < 2; mid++ {
+				for mid := 0; mid < 4; mid++ {
 					ms := ""
-					if mid == 1 {
-						ms = " mid=1"
+					if mid >= 1 {
+						ms = fmt.Sprintf(" mid=%d", mid)
 					}
 					ops := []string{"chain n=3 txs=1.17,8.2,3", "start crash=-", "commit crash=-", fmt.Sprintf("commit crash=%d%s", k, ms)}
 					if j >= 0 {
@@ -747,6 +760,30 @@ func gen(r *rand.Rand, tier string, emit func(core.Case)) {
 				}
 			}
 		}
+	}
+	// (a1-mw) a crash after each single database write of stateStore.Save / SaveABCIResponses (in
+	// finalizeCommit's ApplyBlock and in the handshake's), then recovery and at least four more heights:
+	// whatever the crash left half-written must not stop the node later
+	for _, dis := range []string{"", " discard=1"} {
+		for k := 7; k <= 10; k++ {
+			for j := 1; j <= 3; j++ {
+				h := 1 + r.Intn(2)
+				ops := []string{"chain n=7 txs=1,2.17,e,3,8,4,9" + dis, "start crash=-"}
+				for i := 1; i < h; i++ {
+					ops = append(ops, "commit crash=-")
+				}
+				ops = append(ops, fmt.Sprintf("commit crash=%d mid=%d", k, j))
+				if r.Intn(2) == 0 {
+					ops = append(ops, fmt.Sprintf("start crash=%d mid=%d", r.Intn(7), 1+r.Intn(3)))
+				}
+				ops = append(ops, "start crash=-", "commit crash=-", "commit crash=-", "commit crash=-", "commit crash=-", "check")
+				emit(core.Case{Kind: "pipe-midwrite", Ops: ops})
+			}
+		}
+	}
+	for j := 1; j <= 3; j++ { // the genesis state's save (handshake on an empty node)
+		emit(core.Case{Kind: "pipe-midwrite", Ops: []string{"chain n=5 txs=1,2,3,e,4", fmt.Sprintf("start crash=1 mid=%d", j),
+			"start crash=-", "commit crash=-", "commit crash=-", "commit crash=-", "commit crash=-", "check"}})
 	}
 	// (a1-ih) first block of a chain with InitialHeight > 1: every crash prefix, then a crash prefix of the recovery
 	for _, ih := range []int{2, 7} {
@@ -913,8 +950,8 @@ func gen(r *rand.Rand, tier string, emit func(core.Case)) {
 	// requested; one queued while the committer waits in FlushSync (lock released) is in flight at commit
 	for pool := 0; pool <= 2; pool++ {
 		ops := []string{fmt.Sprintf("mp ver=v1 pool=%d conn=async", pool), "spawncheck i=1", "spawncommit", "spawncheck i=2",
-			"rel what=commit", "rel what=check:1", "rel what=check:2", "rel what=commit", "rel what=recheck:0", "spawncheck i=3",
-			"rel what=recheck:1", "rel what=recheck:2", "rel what=recheck:3", "rel what=check:3", "spawncommit", "rel what=commit"}
+			"rel what=flush", "rel what=check:1", "rel what=flush", "rel what=commit", "rel what=check:2", "rel what=recheck:0", "spawncheck i=3",
+			"rel what=recheck:1", "rel what=recheck:2", "rel what=recheck:3", "rel what=check:3", "spawncommit", "rel what=flush", "rel what=commit"}
 		emit(core.Case{Kind: "mp-scripted-v1-async", Ops: ops})
 	}
 	// asynchronous connection, v0: checks (accepted and rejected) unanswered when the commit starts,
@@ -922,9 +959,9 @@ func gen(r *rand.Rand, tier string, emit func(core.Case)) {
 	for pool := 0; pool <= 2; pool++ {
 		for _, first := range []int{1, 9} {
 			ops := []string{fmt.Sprintf("mp ver=v0 pool=%d conn=async", pool), fmt.Sprintf("spawncheck i=%d", first), "spawncheck i=2", "spawncommit",
-				"rel what=commit", fmt.Sprintf("rel what=check:%d", first), "rel what=commit", "rel what=check:2", "rel what=commit",
+				"rel what=flush", "rel what=commit", fmt.Sprintf("rel what=check:%d", first), "rel what=flush", "rel what=check:2", "rel what=flush", "rel what=commit",
 				"spawncheck i=3", "rel what=recheck:0", "rel what=check:3", "rel what=recheck:0", "rel what=recheck:1", "rel what=recheck:2", "rel what=recheck:3", "rel what=check:3",
-				"spawncommit", "rel what=commit"}
+				"spawncommit", "spawncheck i=4", "rel what=flush", "rel what=commit", "rel what=check:4"}
 			emit(core.Case{Kind: "mp-scripted-v0-async", Ops: ops})
 		}
 	}
